@@ -56,6 +56,12 @@ def make(init):
         return lo + (hi - lo) * rng.random(shape)
     e = arr(spec_shape, 0.0, 2.0)
     moments = [arr(spec_shape, -0.7, 0.7) for _ in range(4)]
+    if init["seed"] % 3 == 0:
+        # measured moments are noisy: a few lie (slightly) outside [-1, 1]; they are data like any other and an
+        # operation may not "repair" them inside its operand
+        for m_, val in ((moments[0], 1.02), (moments[3], -1.01), (moments[1], 1.5)):
+            flat_ = m_.reshape(-1)
+            flat_[init["seed"] % flat_.size] = val
     # NaN values: scattered entries; optionally one whole spectrum (an "invalid" one)
     if init["nan"] >= 1:
         flat = e.reshape(-1)
